@@ -4,7 +4,7 @@ Copies a confirmed seeded change from /tmp/seed_<Cxx>.out (or seeded_inbox/<Cxx>
 import sys, os, json, shutil, re
 VERIF = os.path.dirname(os.path.dirname(os.path.abspath(__file__)))
 prop, i, name, needs, caught = sys.argv[1:6]
-src = f'/tmp/seed_{prop}.out' if os.path.isdir(f'/tmp/seed_{prop}.out') else os.path.join(VERIF, 'seeded_inbox', prop)
+pfx = os.environ.get('SEEDPFX', 'seed'); src = f'/tmp/{pfx}_{prop}.out' if os.path.isdir(f'/tmp/{pfx}_{prop}.out') else os.path.join(VERIF, 'seeded_inbox', prop)
 dst = os.path.join(VERIF, 'seeded', name); os.makedirs(dst, exist_ok=True)
 shutil.copy(os.path.join(src, f'patch_{i}.diff'), os.path.join(dst, 'patch.diff'))
 shutil.copy(os.path.join(src, f'demo_{i}.rs'), os.path.join(dst, 'demo.rs'))
